@@ -428,6 +428,56 @@ func genTaintTime(repo, out string) {
 	writeIfChanged(filepath.Join(out, "TaintTime.lean"), b.String())
 }
 
+// genTriggers: Controller.isScaleOnStarve and Controller.scaleOnMaxNodeAge (pkg/controller/controller.go)
+func genTriggers(repo, out string) {
+	ct := parse(filepath.Join(repo, "pkg/controller/controller.go"))
+	var b strings.Builder
+	b.WriteString("/- GENERATED by /verif/extract from /repo/pkg/controller/controller.go (the two triggers) — do not edit. -/\nimport Esc.Gen.Arith\nnamespace Esc.Gen\n\n")
+	total := 0
+	{
+		a := &ar{fn: "boolFn", atoms: map[string][2]string{
+			"nodeGroup.Opts.ScaleOnStarve":               {"starve", "B"},
+			"podRequests.LargestPendingCPU.IsEmpty()":    {"pendCPUEmpty", "B"},
+			"podRequests.LargestPendingMemory.IsEmpty()": {"pendMemEmpty", "B"},
+			"podRequests.LargestPendingCPU.MilliCPU":     {"pendCPU", "I"},
+			"nodeCapacity.LargestAvailableCPU.MilliCPU":  {"availCPU", "I"},
+			"podRequests.LargestPendingMemory.Memory":    {"pendMem", "I"},
+			"nodeCapacity.LargestAvailableMemory.Memory": {"availMem", "I"},
+			"len(untaintedNodes)":                        {"untainted", "I"},
+			"nodeGroup.Opts.MaxNodes":                    {"maxEff", "I"},
+		}}
+		body := "  false -- not found"
+		if fd := findFunc(ct, "isScaleOnStarve"); fd != nil && fd.Body != nil {
+			a.markInert(fd.Body.List, map[string]bool{})
+			body = a.block(fd.Body.List, env{}, "  ")
+		} else {
+			a.unknown++
+		}
+		b.WriteString("/-- `isScaleOnStarve`. `pendCPUEmpty` / `pendMemEmpty`: `IsEmpty()` of the largest pending pod by CPU / by memory. -/\n")
+		b.WriteString("def isScaleOnStarve (starve pendCPUEmpty pendMemEmpty : Bool) (pendCPU availCPU pendMem availMem untainted maxEff : Int) : Bool :=\n" + body + "\n\n")
+		total += a.unknown
+	}
+	{
+		a := &ar{fn: "boolFn", atoms: map[string][2]string{
+			"nodeGroup.Opts.MaxNodeAgeDuration()": {"maxAge", "I"}, "len(untaintedNodes)": {"untainted", "I"},
+			"nodeGroup.Opts.MinNodes": {"minEff", "I"}, "len(taintedNodes)": {"tainted", "I"},
+		}}
+		a.existsAtoms = map[string]string{"untaintedNodes|time.Since(_x.CreationTimestamp.Time) > nodeGroup.Opts.MaxNodeAgeDuration()": "anyOlder"}
+		body := "  false -- not found"
+		if fd := findFunc(ct, "scaleOnMaxNodeAge"); fd != nil && fd.Body != nil {
+			a.markInert(fd.Body.List, map[string]bool{})
+			body = a.block(fd.Body.List, env{}, "  ")
+		} else {
+			a.unknown++
+		}
+		b.WriteString("/-- `scaleOnMaxNodeAge`. `anyOlder`: some untainted node has `time.Since(creation) > MaxNodeAgeDuration()`. -/\n")
+		b.WriteString("def scaleOnMaxNodeAge (maxAge untainted minEff tainted : Int) (anyOlder : Bool) : Bool :=\n" + body + "\n\n")
+		total += a.unknown
+	}
+	fmt.Fprintf(&b, "def numTriggersUnknown : Nat := %d\n\nend Esc.Gen\n", total)
+	writeIfChanged(filepath.Join(out, "Triggers.lean"), b.String())
+}
+
 func genReap(repo, out string) {
 	sd := parse(filepath.Join(repo, "pkg/controller/scale_down.go"))
 	var b strings.Builder
